@@ -621,9 +621,10 @@ theorem runFrom_balance (k : Kind) (st0 : St) (script : List Op) (hi : SInv st0)
   obtain ⟨s1, s2⟩ := session_balance k st0 script hi hr hu
   rw [hs] at s1
   rw [runFrom_eq]
+  clear hi
+  generalize Nq.Gen.auto_spawn = n at s1 s2 ⊢
   refine ⟨?_, s2⟩
-  show nReports (Ev.hello Nq.Gen.auto_spawn ::
-    ((orun k st0 script).2 ++ (drain k (stopReading (orun k st0 script).1) Nq.Gen.auto_spawn 0).2)) = _
+  show nReports (Ev.hello n :: ((orun k st0 script).2 ++ (drain k (stopReading (orun k st0 script).1) n 0).2)) = _
   rw [nReports_hello]
   exact s1
 
